@@ -204,13 +204,27 @@ Proof. exact AggBridge.verify_accept_bridge. Qed.
 (* hypothesis A holds for every aggregate commit GetAggregateCommit assembles from a valid, duplicate-free pool
    (C06_assemble_accepts), under the ideal-BLS hypotheses of C06 *)
 Theorem C15_assembled_aggregate_commit_accepted : forall (sigT msgT : Type) (sig_len0 : sigT -> bool) (msg_of : AggCommit.cert -> msgT)
-    (fav : list AggCommit.key -> msgT -> sigT -> bool) (vrf : AggCommit.key -> msgT -> sigT -> bool) (agg : list sigT -> sigT),
-  (forall ks ss m ks', Forall2 (fun k s => vrf k m s = true) ks ss -> ks <> [] -> Permutation ks ks' ->
+    (fav : list AggCommit.key -> msgT -> sigT -> bool) (vrf : AggCommit.key -> msgT -> sigT -> bool) (agg : list sigT -> sigT)
+    (key_ok : AggCommit.key -> Prop),
+  (forall ks ss m ks', Forall key_ok ks -> Forall2 (fun k s => vrf k m s = true) ks ss -> ks <> [] -> Permutation ks ks' ->
                        fav ks' m (agg ss) = true) ->
   (forall ss, sig_len0 (agg ss) = false) ->
   forall e g ng a h v,
-    AssembleProofs.params_wf e -> AssembleProofs.pool_ok sigT msgT msg_of vrf e (g ++ ng) ->
+    AssembleProofs.params_wf key_ok e -> AssembleProofs.pool_ok sigT msgT msg_of vrf e (g ++ ng) ->
     AggCommit.get_aggregate_commit agg e g ng = AggCommit.GOk a ->
     AggBridge.corresponds sigT msgT sig_len0 msg_of fav h v e a ->
     agg_commit_ok h v = true.
 Proof. exact AggBridge.assembled_commit_accepted. Qed.
+
+(* ---------------------------------------------------------------- hypothesis T and shouldForge *)
+From Coq Require Import ZArith.
+(* shouldForge implies T provided the clock does not show a slot before the tip's (a block of a future slot is never
+   accepted, so with a monotone clock the tip's slot is not ahead) ... *)
+Theorem C15_should_forge_implies_T : forall cur last now start wait,
+  (last <= cur)%Z -> should_forge cur last now start wait = true -> (last < cur)%Z.
+Proof. exact should_forge_implies_T. Qed.
+
+(* ... and only then: with the clock stepped back below the tip's slot shouldForge still says yes *)
+Theorem C15_should_forge_clock_back_refuted :
+  exists cur last now start wait, should_forge cur last now start wait = true /\ (cur < last)%Z.
+Proof. exact should_forge_clock_back_refuted. Qed.
